@@ -20,6 +20,7 @@ type Config struct {
 	Unwind        int
 	CutFn         string // function-name suffix whose loops are cut after CutN iterations (outside claim)
 	CutN          int
+	RealFns       map[string]bool // functions whose intrinsic is switched off for this harness (the real body runs)
 	MaxSteps      int64
 	MaxDepth      int
 	MaxDecisions  int
